@@ -395,10 +395,16 @@ func (p *KVStore) RegisterAttempt(_ context.Context, paymentHash lntypes.Hash,
 			return err
 		}
 
-		err = htlcsBucket.Put(
-			htlcBucketKey(htlcAttemptInfoKey, htlcIDBytes),
-			htlcInfoBytes,
-		)
+		// An attempt ID can only be registered once, otherwise the
+		// existing attempt would be overwritten and its amount no
+		// longer be accounted for.
+		attemptKey := htlcBucketKey(htlcAttemptInfoKey, htlcIDBytes)
+		if htlcsBucket.Get(attemptKey) != nil {
+			return fmt.Errorf("attempt %d already registered",
+				attempt.AttemptID)
+		}
+
+		err = htlcsBucket.Put(attemptKey, htlcInfoBytes)
 		if err != nil {
 			return err
 		}
